@@ -25,6 +25,7 @@ def floatOp (op : String) (x y : Nat) : Option Nat :=
   | "floor" => some (F64.floor x) | "lt" => some (if F64.lt x y then 1 else 0) | "le" => some (if F64.le x y then 1 else 0)
   | "eq" => some (if F64.eq x y then 1 else 0) | "ofnat" => some (F64.ofNat x) | "isnan" => some (if F64.isNaN x then 1 else 0)
   | "trunc" => some (F64.truncAbs x)
+  | "ceil" => some (F64.ceil x) | "tr" => some (F64.trunc x) | "abs" => some (F64.abs x) | "max" => some (F64.max x y)
   | _ => none
 
 def rating (ver : String) (x : Nat) : Option (List Nat × Go.Err) :=
@@ -193,7 +194,7 @@ def judgeScoreOp (op : List String) (impl : String) : Option (Option String × L
     match floatOp name (parseHexN x) (parseHexN y) with
     | some r =>
       -- NaN payloads are not modelled: arithmetic results that are NaN are compared as "nan"
-      let arith := ["add", "sub", "mul", "div", "min", "round", "rte", "floor"].contains name
+      let arith := ["add", "sub", "mul", "div", "min", "max", "round", "rte", "floor", "ceil", "tr", "abs"].contains name
       let m := if arith && F64.isNaN r then "nan" else hexN r
       some ((if m = impl then none else some m), [], "", "U" ++ name)
     | none => none
